@@ -9,6 +9,11 @@
   and `Pk.encode` lays it out as the bytes the Go code has produced at that point
   (`len(payloads[i])` is `Pk.size`).  The list of packets is kept newest first.
 
+  This record-based model is the one the C13/C08 theorems are stated about.  The same code is also
+  transcribed statement by statement on byte slices (`AV1PayBytes.lean`, run by the driver against
+  the implementation) and once more with every index/slice expression checked (`AV1PayIdx.lean`);
+  `AV1B.payloadB_eq` and `AV1B.payloadC_eq` prove all three equal on every input.
+
   `walk` is the OBU-stream scanning part of the loop in `Payload` (header, optional size field,
   `break` conditions); `step` is the rest of one iteration.  The two are independent in the Go code
   (scanning never looks at the packing state), so the model runs them one after the other.
